@@ -24,6 +24,9 @@
 #include "Neigh/NeighUnique.hpp"
 #include "Neigh/NeighMoving.hpp"
 #include "Estimation/CalcKriging.hpp"
+#include "Estimation/CalcSimpleInterpolation.hpp"
+#include "Estimation/CalcGlobal.hpp"
+#include "Basic/Law.hpp"
 #include "Simulation/CalcSimuTurningBands.hpp"
 #include "Calculators/CalcMigrate.hpp"
 #include "Variogram/Vario.hpp"
@@ -243,6 +246,36 @@ static Db* buildOnTargets()
   return db;
 }
 static DbGrid* buildOnGrid() { return DbGrid::create({CGNX, CGNY}, {1., 1.}, {0., 0.}); }
+
+// territory of the global estimations / second Db of the average covariances: the 3 x 3 grid, with (mode 1) a fixed
+// selection, (mode 2) the selection and weights (one of them zero); asPoints: the same Db physically reduced to its
+// active nodes (a point Db)
+static const double GSEL[9] = {1, 0, 1, 1, 1, 0, 0, 1, 1};
+static const double GWGT[9] = {1., 3., 0.5, 2., 0., 1., 4., 1.5, 1.};
+static Db* buildTerritory(int mode, bool asPoints)
+{
+  int nn = GNX * GNX;
+  if (!asPoints)
+  {
+    DbGrid* g = DbGrid::create({GNX, GNX}, {GDX, GDY}, {0., 0.});
+    VectorDouble sel(nn), w(nn);
+    for (int k = 0; k < nn; k++) { sel[k] = GSEL[k % 9]; w[k] = GWGT[k % 9]; }
+    if (mode >= 2) g->addColumns(w, "w", ELoc::W, 0);
+    if (mode >= 1) g->addColumns(sel, "gsel", ELoc::SEL, 0);
+    return g;
+  }
+  VectorDouble x, y, w;
+  for (int k = 0; k < nn; k++)
+  {
+    if (mode >= 1 && GSEL[k % 9] == 0.) continue;
+    x.push_back((k % GNX) * GDX); y.push_back((k / GNX) * GDY); w.push_back(GWGT[k % 9]);
+  }
+  Db* db = Db::create();
+  db->addColumns(x, "x", ELoc::X, 0);
+  db->addColumns(y, "y", ELoc::X, 1);
+  if (mode >= 2) db->addColumns(w, "w", ELoc::W, 0);
+  return db;
+}
 
 // a fresh model for every call (no state shared between calls)
 // kind 0: structures + nugget; 1 (expo): structure only (exponential); 2: nugget effect only
@@ -558,6 +591,59 @@ static Res runOp(const Case& cs, const std::string& op, Db* db, char variant, co
     if (err) r.st = "err";
     pushNewColumns(r, tg, nc0);
     delete tg;
+  }
+  else if (op == "invdist" || op == "nearest" || op == "movave" || op == "movmed" || op == "lstsqr")
+  {
+    // simple interpolators, at the ordinary targets then at targets lying exactly on the data
+    for (int pass = 0; pass < 2; pass++)
+    {
+      Db* tg = pass == 0 ? buildTargets(nullptr, false) : buildOnTargets();
+      ANeigh* ng = makeNeigh("m");
+      int nc0 = tg->getColumnNumber();
+      int err = 0;
+      if (op == "invdist") err = inverseDistance(db, tg, 2., true, TEST, true, false);
+      else if (op == "nearest") err = nearestNeighbor(db, tg);
+      else if (op == "movave") err = movingAverage(db, tg, ng);
+      else if (op == "movmed") err = movingMedian(db, tg, ng);
+      else err = leastSquares(db, tg, ng, 0);
+      if (err) r.st = "err";
+      pushNewColumns(r, tg, nc0);
+      delete ng; delete tg;
+    }
+  }
+  else if (op == "avgcov")
+  {
+    // average covariances between the data and itself / a second Db without selection, with a selection, with a
+    // selection and weights, in both orders; on the reduced side the second Db is reduced to its active nodes too
+    bool red = (variant == 'R');
+    { Model* m = makeModel(cs, 0); r.v.push_back(m->evalAverageDbToDb(db, db, 0, 0, 0., 0)); delete m; }
+    for (int mode = 0; mode < 3; mode++)
+    {
+      Db* g = buildTerritory(mode, red);
+      { Model* m = makeModel(cs, 0); r.v.push_back(m->evalAverageDbToDb(db, g, 0, 0, 0., 0)); delete m; }
+      { Model* m = makeModel(cs, 0); r.v.push_back(m->evalAverageDbToDb(g, db, 0, 0, 0., 0)); delete m; }
+      delete g;
+    }
+  }
+  else if (op == "global_arith" || op == "global_krig")
+  {
+    // global estimation of the territory (grid without / with a selection); the grid itself cannot be reduced.
+    // (global_kriging with 2 variables corrupts the heap whatever the data: not run)
+    if (op == "global_krig" && cs.nvar > 1) { r.st = "n/a"; return r; }
+    for (int mode = 0; mode < 2; mode++)
+    {
+      // Cvv is computed with randomised places and the generator is not re-seeded by the library (seed = 0)
+      law_set_random_seed(13579 + SEED);
+      DbGrid* g = dynamic_cast<DbGrid*>(buildTerritory(mode, false));
+      Model* m = makeModel(cs, 0);
+      Db* d = db->clone();
+      Global_Result gr = (op == "global_arith") ? global_arithmetic(d, g, m, 0, false) : global_kriging(d, g, m, 0, false);
+      r.v.push_back(gr.np); r.v.push_back(gr.ng); r.v.push_back(gr.surface); r.v.push_back(gr.zest);
+      r.v.push_back(gr.sse); r.v.push_back(gr.cvgeo); r.v.push_back(gr.cvv);
+      r.v.push_back((double)gr.weights.size());
+      pushVec(r, gr.weights);
+      delete d; delete m; delete g;
+    }
   }
   else if (op == "krig_on")
   {
